@@ -41,6 +41,8 @@ fn scenario_loop(
     n_quick: u64,
     n_thorough: u64,
     enum_total: u64,
+    // scenarios every run includes (sharded like the others), whatever the tier
+    fixed: &[u64],
     describe: impl Fn(u64) -> (String, vh_core::Value),
     mut run: impl FnMut(u64, Option<&mut vh_core::Report>) -> Verdict,
 ) {
@@ -101,6 +103,15 @@ fn scenario_loop(
     // thorough walks all of it, quick samples it for half of its budget
     let enum_n = if enum_total == 0 { 0 } else if args.thorough() { enum_total } else { (n / 2).min(enum_total) };
     let mut enumerated_done = 0u64;
+    for (i, seed) in fixed.iter().enumerate() {
+        if !args.mine(i as u64) {
+            continue;
+        }
+        one(*seed, rep, &mut run);
+    }
+    if !fixed.is_empty() {
+        rep.add("fixed_family_scenarios_all_shards", fixed.len() as u64);
+    }
     for i in 0..enum_n + n {
         let r = rng.next_u64();
         let seed = if i < enum_n {
@@ -364,6 +375,7 @@ fn main() {
             96,
             1600,
             0,
+            &[],
             |seed| {
                 let s = c01::Scn::from_seed(seed);
                 (s.shape(), s.to_json())
@@ -407,6 +419,8 @@ fn main() {
             160,
             3000,
             c05::ENUM_TOTAL,
+            // the back-off window family (tails of length 2..4): always run in full
+            &(c05::ENUM_TOTAL..c05::ENUM_TOTAL + c05::WIN_TOTAL).collect::<Vec<u64>>(),
             |seed| {
                 let s = c05::Scn::from_seed(seed);
                 (s.shape(), s.to_json())
@@ -432,7 +446,9 @@ fn main() {
                         rep.add("obs_busy_backoff_waits", seen.busy_waits);
                         rep.add("obs_saturating_scenarios", seen.saturating_scenarios);
                         rep.add("obs_releases_while_paused", seen.releases_while_paused);
-                        rep.rule = "command / fault sequences of length 1..5 over {pause, resume, connect(l), inject accept error(l, EMFILE|ENFILE|ENOMEM|ECONNABORTED|ECONNRESET|ECONNREFUSED) + connect, wait past the back-off} on {TCP, UDS, TCP+UDS} listeners x {Actix, Tokio} with failpoints at the pause/resume acknowledgement and in the accept loop, followed by an epilogue (resume, wait); \
+                        rep.add("obs_backoff_window_scenarios", seen.window_scenarios);
+                        rep.add("obs_commands_inside_backoff_window", seen.commands_inside_backoff_window);
+                        rep.rule = "command / fault sequences of length 1..5 over {pause, resume, connect(l), inject accept error(l, EMFILE|ENFILE|ENOMEM|ECONNABORTED|ECONNRESET|ECONNREFUSED) + connect, wait past the back-off} on {TCP, UDS, TCP+UDS} listeners x {Actix, Tokio}, plus the back-off window family (a resource error, then every sequence of length 2..4 over {pause, resume, connect} with no wait, i.e. inside the 500 ms back-off; random members with tails up to 6), with failpoints at the pause/resume acknowledgement and in the accept loop, followed by an epilogue (resume, wait); \
                                     after every step a no-op command ping brings the accept thread to an idle snapshot and the rules are evaluated on the ordered hook log: pause flag equals the command history (idempotence), no Dispatch between a processed pause and the next resume, a listener that is neither paused nor backing off is registered, a paused one is not, \
                                     per-connection errors cause no deregistration, resource errors do, a back-off is over after 650 ms, every connect() to a running server's listener succeeds (UDS path still present), and every client of an armed listener gets served. Distinct = distinct (listeners, runtime, op sequence); non-trivial = scenario completed.".into();
                         return Verdict::Held;
@@ -451,6 +467,7 @@ fn main() {
             72,
             2400,
             c08::REGRESSION,
+            &[],
             |seed| {
                 let s = c08::Scn::from_seed(seed);
                 (s.shape(), s.to_json())
@@ -497,6 +514,7 @@ fn main() {
             96,
             1600,
             0,
+            &[],
             |seed| {
                 let s = c06::Scn::from_seed(seed);
                 (s.shape(), s.to_json())
@@ -545,6 +563,7 @@ fn main() {
             320,
             8000,
             0,
+            &[],
             |seed| {
                 let s = c07::Scn::from_seed(seed);
                 (s.shape(), s.to_json())
